@@ -163,7 +163,10 @@ def case(ctx, rng, idx):
             # raw dict keys squash under the model's kind; only squashed length matters
         if deg2 and exp.degree() > 2:
             must_overflow = True
-        if any(abs(v.numerator) >= 2 ** 40 for v in exp.d.values()) or len(exp.d) > 80:
+        # float arithmetic (library side) stays exact only while every coefficient and every partial sum fits in 53 bits:
+        # bound magnitude and granularity together
+        if len(exp.d) > 80 or (exp.d and max(abs(v.numerator) for v in exp.d.values()).bit_length() +
+                               max(v.denominator for v in exp.d.values()).bit_length() > 44):
             ctx.cat("skipped:float-exactness-guard")
             continue
         prog.append([op, i, bdesc])
